@@ -52,11 +52,11 @@ Register(n) == /\ pc[n] = "register" /\ handler = {}
                /\ UNCHANGED <<result, conns, owed, wire, handler, tasks, fate, hist>>
 Dial(n) == /\ pc[n] = "dial" /\ conns' = conns \cup {n} /\ tasks' = tasks + 2
            /\ pc' = [pc EXCEPT ![n] = "send"] /\ UNCHANGED <<result, owed, wire, handler, buf, fate, hist>>
-Send(n) == /\ pc[n] = "send" /\ owed' = owed \cup {n} /\ pc' = [pc EXCEPT ![n] = "wait"]
+Send(n) == /\ pc[n] = "send" /\ n \in conns /\ owed' = owed \cup {n} /\ pc' = [pc EXCEPT ![n] = "wait"]
            /\ UNCHANGED <<result, conns, wire, handler, buf, tasks, fate, hist>>
 Finish(n, r) == /\ result' = [result EXCEPT ![n] = r] /\ pc' = [pc EXCEPT ![n] = "done"]
                 /\ conns' = IF DEV_ConnNeverClosed THEN conns ELSE conns \ {n}
-                /\ tasks' = IF DEV_ConnNeverClosed THEN tasks ELSE tasks - 2
+                /\ tasks' = IF DEV_ConnNeverClosed \/ n \notin conns THEN tasks ELSE tasks - 2
                 /\ wire' = IF DEV_ConnNeverClosed THEN wire ELSE wire \ {n}   \* nothing is read from a closed connection
 \* the requester takes an answer from the channel: from a blocked handler (rendezvous) or from the buffer
 RecvRendezvous(n) == /\ DEV_BlockingHandoff /\ pc[n] = "wait" /\ \E k \in handler :
@@ -68,7 +68,15 @@ RecvBuffered(n) == /\ ~DEV_BlockingHandoff /\ pc[n] = "wait" /\ buf # <<>>
                    /\ UNCHANGED <<owed, handler, fate>>
 Timeout(n) == /\ pc[n] = "wait" /\ Finish(n, -1) /\ hist' = Append(hist, [a |-> "timeout", n |-> n])
               /\ UNCHANGED <<owed, handler, buf, fate>>
+\* the request cannot be written: the peer has closed the connection after the capabilities exchange
+SendFails(n) == /\ pc[n] = "send" /\ n \notin conns /\ Finish(n, -1) /\ hist' = Append(hist, [a |-> "sendfails", n |-> n])
+                /\ UNCHANGED <<owed, handler, buf, fate>>
 \* the peer
+\* closes a connection of its own accord (right after the handshake, or while the request waits); the connection's
+\* two tasks end with it.  (A handshake that merely completes late changes no state: Dial is simply taken later.)
+PeerCloses(k) == /\ k \in conns /\ pc[k] \in {"send", "wait"}
+                 /\ conns' = conns \ {k} /\ tasks' = tasks - 2 /\ wire' = wire \ {k}
+                 /\ UNCHANGED <<pc, result, owed, handler, buf, fate, hist>>
 PeerAnswer(k) == /\ k \in owed /\ owed' = owed \ {k}
                  /\ wire' = IF k \in conns THEN wire \cup {k} ELSE wire
                  /\ fate' = [fate EXCEPT ![k] = IF pc[k] = "wait" THEN "prompt"
@@ -83,8 +91,8 @@ Serve(k) == /\ k \in wire /\ wire' = wire \ {k}
                  ELSE handler' = handler /\ buf' = IF buf = <<>> THEN <<k>> ELSE buf   \* full buffer: discarded
             /\ UNCHANGED <<pc, result, conns, owed, tasks, fate, hist>>
 
-Next == \/ Start \/ \E n \in Reqs : Register(n) \/ Dial(n) \/ Send(n) \/ RecvRendezvous(n) \/ RecvBuffered(n) \/ Timeout(n)
-        \/ \E k \in Reqs : PeerAnswer(k) \/ PeerDrop(k) \/ Serve(k)
+Next == \/ Start \/ \E n \in Reqs : Register(n) \/ Dial(n) \/ Send(n) \/ SendFails(n) \/ RecvRendezvous(n) \/ RecvBuffered(n) \/ Timeout(n)
+        \/ \E k \in Reqs : PeerAnswer(k) \/ PeerDrop(k) \/ PeerCloses(k) \/ Serve(k)
 Spec == Init /\ [][Next]_vars
 View == <<pc, result, conns, owed, wire, handler, buf, tasks, fate>>
 
